@@ -9,7 +9,7 @@ start = int(sys.argv[4]) if len(sys.argv) > 4 else 1
 avoid = sys.argv[5] if len(sys.argv) > 5 else ''
 prop = [json.loads(l) for l in open('/verif/properties.jsonl') if json.loads(l)['id'] == pid][0]
 avoid_txt = ("These mechanisms were already used by earlier changes and must NOT be reused (pick different functions / different failure mechanisms): " + avoid + "\n\n") if avoid else ""
-print(f"""You are a software engineer helping to evaluate a verification effort by playing the adversary. You have your own scratch git worktree of the Python project glue-core (glue-viz/glue) at {wt} (already created; work ONLY there — never touch /repo or /verif, and do not read anything under /verif). Python with all dependencies: /venv/bin/python; run code against your worktree with `cd {wt} && PYTHONPATH={wt} MPLBACKEND=Agg /venv/bin/python ...`; run tests with `cd {wt} && PYTHONPATH={wt} /venv/bin/python -m pytest -q -p no:cacheprovider -n 8 <paths>` (the whole suite: `... -n 12 glue` takes a few minutes; 8 tests fail at baseline for unrelated reasons (pandas/excel/wcs autolink) — those do not count).
+print(f"""You are a software engineer helping to evaluate a verification effort by playing the adversary. You have your own scratch git worktree of the Python project glue-core (glue-viz/glue) at {wt} (already created; work ONLY there — never touch /repo or /verif, and do not read anything under /verif). Python with all dependencies: /venv/bin/python; run code against your worktree with `cd {wt} && PYTHONPATH={wt} MPLBACKEND=Agg /venv/bin/python ...`; run tests with `cd {wt} && PYTHONPATH={wt} /venv/bin/python -m pytest -q -p no:cacheprovider -n 8 <paths>` (the whole suite: `... -n 6 glue` takes several minutes; 8 tests fail at baseline for unrelated reasons (pandas/excel/wcs autolink) — those do not count).
 
 Here is a semantic property that the code base is supposed to satisfy:
 
@@ -26,4 +26,4 @@ Task: produce {n} DIFFERENT, realistic changes to the source of glue-core (the k
   * patch.diff   — `git diff` of the change against the worktree's HEAD (apply cleanly with `git apply` on a clean checkout);
   * demo.py      — a small standalone program (or pytest file demo_test.py) that exits non-zero / fails WITH the change and exits 0 / passes WITHOUT it, printing what it observed; it must exercise the public API only and state in a comment which sentence of the property is violated;
   * meta.json    — {{"property": "{prop['id']}", "summary": "...", "what_it_needs_to_manifest": "...", "files_changed": [...], "tests_run": "command + result summary with and without the change"}}.
-Procedure for each change: make it, run the demo (must fail), run the full suite with -n 12 (must show only the 8 baseline failures — list the failing test ids in meta.json), save patch.diff, then `git checkout -- .` (keep seed_out/, which is untracked), re-run the demo (must pass). Leave the worktree clean apart from seed_out/. Finish with a short summary of the {n} changes.""")
+Procedure for each change: make it, run the demo (must fail), run the full suite with -n 6 (must show only the 8 baseline failures — list the failing test ids in meta.json), save patch.diff, then `git checkout -- .` (keep seed_out/, which is untracked), re-run the demo (must pass). Leave the worktree clean apart from seed_out/. Finish with a short summary of the {n} changes.""")
